@@ -299,7 +299,7 @@ def run(ctx):
                        'values built from user/password tables (0-3 colons, empty parts, 8-bit, long) and random credentials, plain and with mutated base64, '
                        'through Auth::Basic::Config::decode. driver_checked: Decode(Encode(s)) = s on all 2^24+2^16+2^8+1 strings of length <= 3, evaluated '
                        'by the driver per implementation, not by TLC. Cases are de-duplicated; non-trivial = non-empty input.')
-    ctx.assumptions += ['the squid build uses libnettle for base64 (HAVE_NETTLE_BASE64_H); lib/base64.cc is exercised as well through a private translation unit',
+    ctx.assumptions += ['the squid build uses libnettle for base64 (HAVE_NETTLE_BASE64_H); lib/base64.cc is exercised as well through a private translation unit; the I-layer has one padding rule per implementation and Basic credentials are modelled with the linked decoder',
                         'credentials containing NUL, CR or LF are outside the split rule (RFC 7617 forbids control characters); the real decode() is still run on them under ASan',
                         'an empty password may be reported as absent (squid refuses empty passwords by policy)',
                         'writes beyond the promised output size are observed through ASan on exactly-sized heap buffers: on explored inputs only',
